@@ -363,3 +363,93 @@ Fixpoint forallb2o (f : oq -> oq -> bool) (l1 l2 : list oq) : bool :=
   end.
 Definition c03_rerun_case (tol : Q) (sample_k rerun : list oq) : nat :=
   code [ forallb2o (near1 tol) sample_k rerun ].
+
+(* ------------------------------------------------ derived containers
+   The container that is sampled is often not the one a measurement stored: patches are selected
+   (.patches[I] with a list in any order, a reversed or stepped slice, a mask), bins are selected,
+   containers are added, multiplied by a scalar, written to a file and read back - and only then
+   sample_patch_sum() / CorrFunc.sample() / RedshiftData.from_corrfuncs() run.  The property speaks
+   about the derived container: its k-th patch is the k-th SELECTED one (patch I[k] of the original),
+   and sample k is the statistic of the selection with that patch left out, i.e. the statistic of
+   the original data restricted to I without its k-th entry (Proofs: del_msel, loo_msel,
+   sample_msel, remove_nth_vsel, nc_sample_sel_is_recount).  Counts and sums of weights must be
+   selected by the SAME index list: nc_sample_sel_mixed_refuted. *)
+Definition vsel (I : list nat) (u : list Q) : list Q := map (fun i => nth i u 0) I.
+(* counts[:, I][:, :, I] of one bin: the sub-matrix, rows and columns in the order of I *)
+Definition msel (I : list nat) (M : mat) : mat := map (fun i => vsel I (nth i M [])) I.
+Definition madd (A B : mat) : mat := map2 (map2 Qplus) A B.
+(* arr[J] along the bin axis *)
+Definition bsel {A} (J : list nat) (l : list (list A)) : list (list A) := map (fun b => nth b l []) J.
+(* the index list of a selection of a selection: (x.patches[I]).patches[J] = x.patches[I[J]] *)
+Definition isel (I J : list nat) : list nat := map (fun j => nth j I 0%nat) J.
+
+(* what a NormalisedCounts holds: counts (bins, N, N), sum_weights1 / 2 (bins, N) *)
+Definition arrs := (list mat * list (list Q) * list (list Q))%type.
+Inductive deriv :=
+| D_patches (I : list nat)      (* .patches[item], item resolved to positions on the patch axis *)
+| D_bins (J : list nat)         (* .bins[item] *)
+| D_add (C' : list mat)         (* + a container with the same sums of weights: counts add *)
+| D_mul (c : Q).                (* * scalar: counts only *)
+Definition derive1 (d : deriv) (a : arrs) : arrs :=
+  let '(C, U, V) := a in
+  match d with
+  | D_patches ps => (map (msel ps) C, map (vsel ps) U, map (vsel ps) V)
+  | D_bins bs => (bsel bs C, bsel bs U, bsel bs V)
+  | D_add C' => (map2 madd C C', U, V)
+  | D_mul c => (map (mscale c) C, U, V)
+  end.
+Definition derive (ds : list deriv) (a : arrs) : arrs := fold_left (fun a d => derive1 d a) ds a.
+(* number of patches of what is held (a raw container holds counts only or weights only: the other
+   array is empty) *)
+Definition arrs_np (a : arrs) : nat :=
+  let '(C, U, _) := a in Nat.max (length (nth 0 U [])) (length (nth 0 C [])).
+
+(* one bin of NormalisedCounts.patches[I].sample_patch_sum(), sample k *)
+Definition nc_sample_sel (auto : bool) (I : list nat) (M : mat) (u v : list Q) (k : nat) : Q :=
+  nc_sample auto (msel I M) (vsel I u) (vsel I v) k.
+(* the statistic of the original data restricted to the selection without its k-th entry *)
+Definition nc_stat_sel (auto : bool) (I : list nat) (M : mat) (u v : list Q) : Q :=
+  nc_stat auto (msel I M) (vsel I u) (vsel I v).
+
+(* the variant that the property excludes: the pair counts are selected by the patch ids in
+   ascending order ("keeps autocorrelation counts upper triangular") while the sums of weights
+   keep the caller's order.  Totals are unchanged (the same set of patches); leave-one-out counts
+   drop patch sort(I)[k], the leave-one-out normalisation drops patch I[k]. *)
+Fixpoint insert_nat (x : nat) (l : list nat) : list nat :=
+  match l with
+  | [] => [x]
+  | y :: r => if (x <=? y)%nat then x :: l else y :: insert_nat x r
+  end.
+Definition sort_nat (l : list nat) : list nat := fold_right insert_nat [] l.
+Definition nc_sample_sel_mixed (auto : bool) (I : list nat) (M : mat) (u v : list Q) (k : nat) : Q :=
+  nc_sample auto (msel (sort_nat I) M) (vsel I u) (vsel I v) k.
+(* every selection step in ascending order: what a container that normalises ALL its arrays holds *)
+Definition sort_steps (ds : list deriv) : list deriv :=
+  map (fun d => match d with D_patches ps => D_patches (sort_nat ps) | _ => d end) ds.
+
+(* raw containers after a derivation: the existing checkers on the derived arrays.
+   with_alt: bit 6 (64) is added to a non-zero code when the observed samples ARE those of the
+   derivation with every patch selection taken in ascending order (a container that holds the
+   selected patches in another order than the caller's, consistently) *)
+Definition with_alt (c : nat) (alt : unit -> nat) : nat :=
+  if Nat.eqb c 0 then 0%nat else if Nat.eqb (alt tt) 0 then (c + 64)%nat else c.
+Definition c03_dsps_core (ds : list deriv) (A : list mat) (impl_data : list Q) (impl_samples : list (list Q)) : nat :=
+  let a := derive ds (A, [], []) in
+  let '(C, _, _) := a in c03_sps_case (arrs_np a) C impl_data impl_samples.
+Definition c03_dsps_case ds A impl_data impl_samples : nat :=
+  with_alt (c03_dsps_core ds A impl_data impl_samples)
+           (fun _ => c03_dsps_core (sort_steps ds) A impl_data impl_samples).
+Definition c03_dweights_core (ds : list deriv) (auto : bool) (U V : list (list Q))
+           (impl_array : list mat) (impl_data : list Q) (impl_samples : list (list Q)) : nat :=
+  let a := derive ds ([], U, V) in
+  let '(_, U', V') := a in c03_weights_case (arrs_np a) auto U' V' impl_array impl_data impl_samples.
+Definition c03_dweights_case ds auto U V impl_array impl_data impl_samples : nat :=
+  with_alt (c03_dweights_core ds auto U V impl_array impl_data impl_samples)
+           (fun _ => c03_dweights_core (sort_steps ds) auto U V impl_array impl_data impl_samples).
+Definition c03_dnc_core (ds : list deriv) (auto : bool) (C : list mat) (U V : list (list Q))
+           (impl_data : list oq) (impl_samples : list (list oq)) : nat :=
+  let a := derive ds (C, U, V) in
+  let '(C', U', V') := a in c03_nc_case (arrs_np a) auto C' U' V' impl_data impl_samples.
+Definition c03_dnc_case ds auto C U V impl_data impl_samples : nat :=
+  with_alt (c03_dnc_core ds auto C U V impl_data impl_samples)
+           (fun _ => c03_dnc_core (sort_steps ds) auto C U V impl_data impl_samples).
